@@ -9,7 +9,9 @@ theorem invC_step_1 {w s l s'} (ha : InvA w s) (hi : InvC s) (hs : Step s l s') 
   | fRefLoad c rest d h hk hf => invC_auto
   | fForward c rest d n h hk hn => invC_auto
   | fForwardPost c rest d h hk => invC_auto
-  | fRetire c rest d n h hk => invC_auto
+  | fEnter c rest d h hk hf => invC_auto
+  | rRefLoad c h => invC_auto
+  | rRetire c n h => invC_auto
   | jInvoke c h => invC_auto
   | jDec c h => invC_auto
   | _ => simp [grpOf] at hg
